@@ -127,6 +127,14 @@ func (e *Engine) runFrom(st *State, fr *Frame, b *ssa.BasicBlock, i int) {
 				e.runBlock(st, fr, b.Succs[1], b)
 				return
 			}
+			switch st.known(cs.T) {
+			case 1:
+				e.runBlock(st, fr, b.Succs[0], b)
+				return
+			case -1:
+				e.runBlock(st, fr, b.Succs[1], b)
+				return
+			}
 			st2 := st.clone()
 			st.assume(cs.T)
 			st2.assume(Not(cs.T))
@@ -439,7 +447,7 @@ func (e *Engine) step(st *State, fr *Frame, instr ssa.Instruction) bool {
 		obj := &MapObj{Typ: mt}
 		if ks, vs, absent, ok := mapSorts(mt); ok {
 			obj.KeySort, obj.ValSort, obj.Absent = ks, vs, absent
-			obj.Arr = Term{fmt.Sprintf("((as const (Array %s %s)) %s)", ks.Name, vs.Name, absent.S), &Sort{fmt.Sprintf("(Array %s %s)", ks.Name, vs.Name)}}
+			obj.Arr = mkT(fmt.Sprintf("((as const (Array %s %s)) %s)", ks.Name, vs.Name, absent.S), &Sort{fmt.Sprintf("(Array %s %s)", ks.Name, vs.Name)})
 		} else {
 			obj.Struct = true
 			obj.Entries = map[string]Value{}
@@ -520,7 +528,7 @@ func (e *Engine) havoc(st *State, t types.Type, hint string) Value {
 	if s := scalarSort(t); s != nil {
 		term := e.fresh(st, hint, s)
 		if lo, hi, ok := intRange(t); ok {
-			st.assume(And(Ge(term, Term{lo, SInt}), Le(term, Term{hi, SInt})))
+			st.assume(And(Ge(term, mkT(lo, SInt)), Le(term, mkT(hi, SInt))))
 		}
 		return sym(term)
 	}
@@ -687,7 +695,7 @@ func (e *Engine) binop(st *State, op token.Token, x, y Value, xt, rt types.Type,
 			if wraps {
 				if _, isc := r.intConst(); !isc {
 					if lo, hi, ok := intRange(rt); ok {
-						inRange := And(Ge(r, Term{lo, SInt}), Le(r, Term{hi, SInt}))
+						inRange := And(Ge(r, mkT(lo, SInt)), Le(r, mkT(hi, SInt)))
 						if e.wantNowrap {
 							e.nowrapSites = append(e.nowrapSites, nowrapSite{pos: pos, cond: inRange,
 								pc: st.pc[:len(st.pc):len(st.pc)], decls: st.decls[:len(st.decls):len(st.decls)]})
@@ -826,7 +834,7 @@ func (e *Engine) isNilTerm(st *State, v Value) Term {
 			return App(SBool, "b.isnil", a.T)
 		}
 		if a.T.Sort == SJson {
-			return Eq(a.T, Term{"JNULL", SJson})
+			return Eq(a.T, mkT("JNULL", SJson))
 		}
 		return TFalse
 	case VPtr, VIface, VFunc, VAbs, VSlice:
@@ -861,29 +869,29 @@ func (e *Engine) convert(st *State, x Value, from, to types.Type) Value {
 			return x
 		}
 		if n, isc := xs.T.intConst(); isc {
-			l, _ := Term{tlo, SInt}.intConst()
-			h, _ := Term{thi, SInt}.intConst()
+			l, _ := mkT(tlo, SInt).intConst()
+			h, _ := mkT(thi, SInt).intConst()
 			if n.Cmp(l) >= 0 && n.Cmp(h) <= 0 {
 				return x
 			}
 		}
 		_ = flo
 		_ = fhi
-		fl, _ := Term{flo, SInt}.intConst()
-		fh, _ := Term{fhi, SInt}.intConst()
-		tl, _ := Term{tlo, SInt}.intConst()
-		th, _ := Term{thi, SInt}.intConst()
+		fl, _ := mkT(flo, SInt).intConst()
+		fh, _ := mkT(fhi, SInt).intConst()
+		tl, _ := mkT(tlo, SInt).intConst()
+		th, _ := mkT(thi, SInt).intConst()
 		if fl.Cmp(tl) >= 0 && fh.Cmp(th) <= 0 {
 			return x // widening
 		}
 		bits := typeBits(to)
-		in := And(Ge(xs.T, Term{tlo, SInt}), Le(xs.T, Term{thi, SInt}))
+		in := And(Ge(xs.T, mkT(tlo, SInt)), Le(xs.T, mkT(thi, SInt)))
 		if isUnsigned(to) {
 			return sym(Ite(in, xs.T, App(SInt, "mod", xs.T, pow2(bits))))
 		}
 		// signed narrowing: wrap
 		w := e.fresh(st, "conv", SInt)
-		st.assume(And(Ge(w, Term{tlo, SInt}), Le(w, Term{thi, SInt})))
+		st.assume(And(Ge(w, mkT(tlo, SInt)), Le(w, mkT(thi, SInt))))
 		st.assume(Implies(in, Eq(w, xs.T)))
 		return sym(w)
 	case fs == SBytes && ts == SStr:
